@@ -85,4 +85,62 @@ def wfRules (now : Nat) (b : Bundle) : List (String × Bool) := [
   ("hop-count-above-limit", decide (∀ c ∈ b.blocks, hopOk c.value)),
   ("lifetime-run-out", decide (NotExpired now b))]
 
+/-! ### C01: the structures the wire can carry as such ("valid bundle" presupposes them)
+
+`Encodable` collects what Go's types guarantee (`uint64`, `uint8` fields, byte strings a reader can
+take back) and the normal form of the structure: a non-fragment has no fragment offset, typed values
+sit under registered type codes and generic values under unregistered ones, map keys are pairwise
+different (a Go map), endpoint structures are split the way the parser splits them. -/
+
+def U64 (n : Nat) : Prop := n < 2 ^ 64
+
+instance (n : Nat) : Decidable (U64 n) := by unfold U64; infer_instance
+
+def Eid.Enc (e : Eid) : Prop := e.Canonical ∧ e.Bounded
+
+instance (e : Eid) : Decidable (Eid.Enc e) := by unfold Eid.Enc; infer_instance
+
+def EidMap.Enc (m : EidMap) : Prop :=
+  (∀ p ∈ m, Eid.Enc p.1 ∧ U64 p.2) ∧ (m.map (·.1)).Nodup ∧ U64 m.length
+
+instance (m : EidMap) : Decidable (EidMap.Enc m) := by unfold EidMap.Enc; infer_instance
+
+def BlockValue.Enc (cfg : Cfg) : BlockValue → Prop
+  | .payload _ => True
+  | .generic t _ => cfg.registered t = false ∧ U64 t
+  | .prevNode e => Eid.Enc e
+  | .age ms => U64 ms
+  | .hop l c => l ≤ 255 ∧ c ≤ 255
+  | .spray n => cfg.registered tSpray = true ∧ U64 n
+  | .dtlsr id ts peers => cfg.registered tDtlsr = true ∧ Eid.Enc id ∧ U64 ts ∧ EidMap.Enc peers
+  | .prophet m => cfg.registered tProphet = true ∧ EidMap.Enc m
+  | .signature pk sg => cfg.registered tSignature = true ∧ pk.length ≤ maxInt32 ∧ sg.length ≤ maxInt32
+
+instance (cfg : Cfg) (v : BlockValue) : Decidable (BlockValue.Enc cfg v) := by
+  cases v <;> unfold BlockValue.Enc <;> infer_instance
+
+def Canonical.Enc (cfg : Cfg) (c : Canonical) : Prop :=
+  U64 c.num ∧ U64 c.flags ∧ c.crcT ≤ 2 ∧ BlockValue.Enc cfg c.value ∧
+  (encValueInner c.value).length ≤ maxInt32
+
+instance (cfg : Cfg) (c : Canonical) : Decidable (Canonical.Enc cfg c) := by
+  unfold Canonical.Enc; infer_instance
+
+def Primary.Enc (p : Primary) : Prop :=
+  p.version = dtnVersion ∧ U64 p.flags ∧ p.crcT ≤ 2 ∧
+  Eid.Enc p.dst ∧ Eid.Enc p.src ∧ Eid.Enc p.rpt ∧
+  U64 p.tsTime ∧ U64 p.tsSeq ∧ U64 p.lifetime ∧ U64 p.fragOff ∧ U64 p.total ∧
+  (p.isFragment = false → p.fragOff = 0 ∧ p.total = 0)
+
+instance (p : Primary) : Decidable (Primary.Enc p) := by unfold Primary.Enc; infer_instance
+
+def Encodable (cfg : Cfg) (b : Bundle) : Prop :=
+  Primary.Enc b.primary ∧ ∀ c ∈ b.blocks, Canonical.Enc cfg c
+
+instance (cfg : Cfg) (b : Bundle) : Decidable (Encodable cfg b) := by unfold Encodable; infer_instance
+
+/-- Bundle ID as C01 means it: source node, creation timestamp, fragment flag, offset, total length. -/
+def Bundle.id (b : Bundle) : Eid × Nat × Nat × Bool × Nat × Nat :=
+  (b.primary.src, b.primary.tsTime, b.primary.tsSeq, b.primary.isFragment, b.primary.fragOff, b.primary.total)
+
 end Dtn7.Bundle
